@@ -75,6 +75,7 @@ func exploreCase(c *mc.Ctx, w *mc.W, cas c20Case, maxExecs int) {
 	distinct := map[string]bool{}
 	reported := map[string]bool{}
 	ex := &Explorer{Bound: cas.Bound, MaxExecs: maxExecs}
+	ex.StopOnProblem = cas.Kind == "gcs" && cas.GCS != nil && cas.GCS.Big
 	ex.Run = func(choose func(int, []int, bool) int) *Outcome { return runCase(cas, choose) }
 	ex.OnOutcome = func(o *Outcome) {
 		w.Eval()
@@ -206,6 +207,32 @@ func RunC20(c *mc.Ctx) {
 			t := gt[i]
 			cfg := &GCSConfig{Progs: [][]string{g3[t.a], g3[t.b], g3[t.c]}}
 			exploreCase(c, w, c20Case{Kind: "gcs", GCS: cfg, Bound: 1}, 300000)
+		})
+	}
+	// a filter of 1100 elements (code paths that depend on the element count: lazily built or cached
+	// decodings, strategy switches), explored with local statements not being scheduling points:
+	// every unordered pair of single-query programs, and every ordered pair "two queries in one thread
+	// against one query in another"
+	{
+		bp := programs(GCSBigOps, 1)
+		type bcase struct{ a, b []string }
+		var bcs []bcase
+		for i := range bp {
+			for j := i; j < len(bp); j++ {
+				bcs = append(bcs, bcase{bp[i], bp[j]})
+			}
+		}
+		for _, x := range []string{"HashMatchAny:m", "MatchAny:long", "Match:m0"} {
+			for _, y := range []string{"HashMatchAny:m", "HashMatchAny:miss", "MatchAny:long", "ZipMatchAny:m"} {
+				for _, z := range []string{"HashMatchAny:m", "MatchAny:long", "Match:mLast"} {
+					bcs = append(bcs, bcase{[]string{x, y}, []string{z}})
+				}
+			}
+		}
+		c.Space("gcs, 1100-element filter: pairs of query programs (local statements are not scheduling points)", int64(len(bcs)))
+		c.ParFor(int64(len(bcs)), func(w *mc.W, i int64) {
+			cfg := &GCSConfig{Progs: [][]string{bcs[i].a, bcs[i].b}, Big: true}
+			exploreCase(c, w, c20Case{Kind: "gcs", GCS: cfg, Bound: mc.Pick(c, 2, 3)}, 5000)
 		})
 	}
 	c.Sample("schedule", c20Case{Kind: "gcs", GCS: &GCSConfig{Progs: [][]string{{"Match:a"}, {"HashMatchAny"}}}, Choices: []int{0, 0, 1}, Bound: 1})
